@@ -209,3 +209,59 @@ func VerifC06Strings() {
 	}
 	rt.Assert(got == want, "strings do not compare in byte order")
 }
+
+var (
+	verifC06relOps = []symbols.Exp{symbols.LessThan, symbols.LessThanOrEqual, symbols.GreaterThan, symbols.GreaterThanOrEqual}
+	verifC06eqOps  = []symbols.Exp{symbols.EqualTo, symbols.NotEqualTo}
+)
+
+// VerifC06CmpChain: `A r1 B e C r2 D` with r1, r2 relational (< <= > >=), e an equality operator
+// (== !=) and A..D sums/products of 1..2 arbitrary float64: with C precedence the relational
+// operators bind tighter than the equality operator, so the result is (A r1 B) e (C r2 D).
+func VerifC06CmpChain() {
+	strict := rt.Choice("strict-types", 2) == 1
+	r1 := verifC06relOps[rt.Choice("rel", 4)]
+	e := verifC06eqOps[rt.Choice("eq", 2)]
+	r2 := verifC06relOps[rt.Choice("rel", 4)]
+	// each operand: one value, or two joined by an arithmetic operator (when `arith` = 1)
+	var ops []symbols.Exp
+	var vals []float64
+	var operand [4]float64
+	for j := 0; j < 4; j++ {
+		a := rt.Float64("v")
+		vals = append(vals, a)
+		operand[j] = a
+		if rt.Param("arith") == 1 && rt.Choice("wide", 2) == 1 {
+			op := verifC06arithOps[rt.Choice("op", len(verifC06arithOps))]
+			b := rt.Float64("v")
+			ops = append(ops, op)
+			vals = append(vals, b)
+			operand[j] = verifC06refArith([]float64{a, b}, []symbols.Exp{op})
+		}
+		if j < 3 {
+			ops = append(ops, []symbols.Exp{r1, e, r2}[j])
+		}
+	}
+	tree := new(ParserT)
+	tree._strictTypes = strict
+	for i := range vals {
+		if i > 0 {
+			tree.ast = append(tree.ast, &astNodeT{key: ops[i-1], pos: 2*i - 1})
+		}
+		tree.ast = append(tree.ast, &astNodeT{key: symbols.Number, pos: 2 * i, dt: primitives.NewPrimitive(primitives.Number, vals[i])})
+	}
+	dt, err := tree.executeExpr()
+	rt.Assert(err == nil, "a well-formed comparison chain was rejected")
+	val, err := dt.GetValue()
+	rt.Assert(err == nil, "result has no value")
+	rt.Reach("chain-evaluated")
+	left := verifC06refCmp(r1, operand[0], operand[1])
+	right := verifC06refCmp(r2, operand[2], operand[3])
+	want := left == right
+	if e == symbols.NotEqualTo {
+		want = left != right
+	}
+	b, ok := val.Value.(bool)
+	rt.Assert(ok, "comparison chain result is not a boolean")
+	rt.Assert(b == want, "relational operators must bind tighter than == and != (C precedence)")
+}
